@@ -75,6 +75,7 @@ class Stats:
         self.counters = Counter()   # vacuity guards and other measured counts
         self.violations = []        # dicts (capped)
         self.n_violations = 0
+        self.viol_groups = Counter()
         self.known = Counter()      # finding id -> number of matching violations
         self.known_examples = {}
         self.samples = []
@@ -96,12 +97,16 @@ class Stats:
     def violation(self, case_id, case, detail, tags=None, order=None):
         """case: JSON-serialisable description sufficient for replay(case)."""
         tags = dict(tags or {})
+        detail = str(detail)
+        if len(detail) > 700:
+            detail = detail[:700] + ' ...[truncated]'
         f = match_finding(self._findings, tags)
         if f is not None:
             self.known[f['id']] += 1
             self.known_examples.setdefault(f['id'], {'case_id': case_id, 'detail': detail})
             return
         self.n_violations += 1
+        self.viol_groups[str(tags.get('group') or tags.get('part') or tags.get('table') or tags.get('kind') or '')] += 1
         if len(self.violations) < VIOLATION_CAP:
             self.violations.append({'case_id': case_id, 'case': case, 'detail': detail, 'tags': tags,
                                     'order': order if order is not None else self.evaluations})
@@ -116,6 +121,7 @@ class Stats:
         self.violations.extend(o.violations)
         self.n_violations += o.n_violations
         self.known.update(o.known)
+        self.viol_groups.update(o.viol_groups)
         for k, v in o.known_examples.items():
             self.known_examples.setdefault(k, v)
         for s in o.samples:
